@@ -114,6 +114,14 @@ int vasprintf(char ** strp, const char * fmt, va_list ap) {
 #define kStringBufferGrowthMultiplier 2					//!< Multiply capacity by this factor when more space is needed
 #define kStringBufferMaxIncrement 1024 * 1024 * 100		//!< Maximum growth increment when resizing (to limit exponential growth)
 
+#ifdef MMD6_VERIF
+	/* Verification hook (off by default): a harness chooses the starting capacity so that
+	   short strings cross the reallocation path too. */
+	extern size_t mmd6_verif_dstring_start;
+	#undef kStringBufferStartingSize
+	#define kStringBufferStartingSize mmd6_verif_dstring_start
+#endif
+
 
 /// Create a new dynamic string
 DString * d_string_new(const char * startingString) {
